@@ -4,6 +4,7 @@ from analysis.facts import AnchorError
 from analysis import terms as T, k2
 from analysis.effects import subterms
 
+THOROUGH_CONFIGS = ['release', 'nobmi2']
 LEVEL = "other"
 DECIDED = ("R1 make_move decodes the ABI move with From<StableChessMove> (lossless by C16), applies it with the checked Board::move_mut on the plugin's own board, returns "
            "{is_valid: false, three_fold: false} on refusal WITHOUT touching the repetition table, and on success counts the position AFTER the move exactly once and reports that count's verdict; "
